@@ -58,6 +58,7 @@ func executeFlush(db *DB, flushAction memStoreFlushAction) error {
 	if err != nil {
 		return err
 	}
+	verifPoint("flush.tableWritten")
 
 	if walPath != "" {
 		err = os.Remove(walPath)
